@@ -97,6 +97,8 @@ func TestWorker(t *testing.T) {
 				}
 				if !(cmd.Sample && i == cmd.From) && res.Verdict == "ok" {
 					res.Sample = nil
+				} else if cmd.Sample && i == cmd.From && res.Sample == nil {
+					res.Sample = props.SampleOf(sc, res)
 				}
 				// only report abstract states this worker has not reported yet
 				var fresh []string
